@@ -30,6 +30,24 @@ Theorem imported_usable :
 Proof. exact imported_initial_none. Qed.
 Print Assumptions imported_usable.
 
+(* (3b) name and description given AFTER the file was created: a file object created with one name, renamed / described any
+   number of times while it is being filled (any writer operations in between), then closed -- whatever is imported from it
+   carries the attributes that were set last *)
+Theorem names_set_later :
+  forall (X D S : Type) (p : spt X D S) (ops : list (wop X S)) q,
+    import_simple X D S (close X D S (fold_left (wstep X D S) ops (create X D S p))) = Ok q ->
+    s_name X D S q = last_name X S ops (s_name X D S p) /\ s_desc X D S q = last_desc X S ops (s_desc X D S p).
+Proof. exact PTFileSpec.names_set_later. Qed.
+Print Assumptions names_set_later.
+
+Example names_set_later_example :
+  import_simple nat nat nat (close nat nat nat (fold_left (wstep nat nat nat)
+     [WMpo nat nat 0 ([1;1;1], [Some 1]); WName nat nat 7; WCap nat nat 0 ([1], [Some 1]); WDesc nat nat 8; WName nat nat 9; WCap nat nat 1 ([1], [Some 1])]
+     (create nat nat nat (Build_spt nat nat nat 2 None None None 1 2 None [] []))))
+  = Ok {| s_hs := 2; s_dt := None; s_tin := None; s_tout := None; s_name := 9; s_desc := 8; s_init := None;
+          s_mpos := [([1;1;1], [Some 1])]; s_caps := [([1], [Some 1]); ([1], [Some 1])] |}.
+Proof. reflexivity. Qed.
+
 (* non-vacuity: a two-step process tensor with a rank-4 and a rank-3 tensor is well formed *)
 Example wf_example :
   wf nat nat nat
